@@ -63,6 +63,7 @@ type Params struct {
 	Mtu         *uint64 `json:"mtu,omitempty"`
 	Persistency *uint64 `json:"persistency,omitempty"`
 	Uri         string  `json:"uri,omitempty"`
+	Expiration  *uint64 `json:"expiration,omitempty"` // rib/register: ExpirationPeriod in ms
 }
 
 func (p Params) String() string {
@@ -157,6 +158,12 @@ func (Engine) Generate(prop string, r *kit.Rand, tier string) *kit.Scenario[Conf
 			}
 			if r.Chance(0.5) {
 				o.P.Flags = u(uint64(r.Intn(4)))
+			}
+			if r.Chance(0.05) {
+				o.P.Cost = u(kit.Pick(r, []uint64{1 << 31, 1 << 32, 1<<63 - 1, 1 << 63, 1<<64 - 1}))
+			}
+			if o.Verb == "register" && r.Chance(0.2) {
+				o.P.Expiration = u(kit.Pick(r, []uint64{0, 1, 1000, 60000, 3600000, 1<<32 - 1, 1 << 32, 1 << 53, 9223372036854, 9223372036855, 1<<63 - 1, 1 << 63, 1<<64 - 1}))
 			}
 		case 1:
 			o.Module = "fib"
@@ -368,6 +375,9 @@ func (Engine) Simplify(sc *kit.Scenario[Config, Op]) []*kit.Scenario[Config, Op]
 		if o.P.Cost != nil {
 			mod(i, func(o *Op) { o.P.Cost = nil })
 		}
+		if o.P.Expiration != nil {
+			mod(i, func(o *Op) { o.P.Expiration = nil })
+		}
 		if o.P.Origin != nil {
 			mod(i, func(o *Op) { o.P.Origin = nil })
 		}
@@ -383,7 +393,10 @@ func (Engine) Simplify(sc *kit.Scenario[Config, Op]) []*kit.Scenario[Config, Op]
 
 // ---------------------------------------------------------------- model
 
-type route struct{ face, origin, cost, flags uint64 }
+type route struct {
+	face, origin, cost, flags uint64
+	exp                       string // expiration period in ms, "-" if none
+}
 
 type faceM struct {
 	exists      bool
@@ -487,12 +500,19 @@ func (m *model) ribStr() map[string]string {
 		}
 		xs := []string{}
 		for _, r := range rs {
-			xs = append(xs, fmt.Sprintf("%d/%d/%d/%d", r.face, r.origin, r.cost, r.flags))
+			xs = append(xs, fmt.Sprintf("%d/%d/%d/%d", r.face, r.origin, r.cost, r.flags)+expSuffix(r.exp))
 		}
 		sort.Strings(xs)
 		out[p] = strings.Join(xs, ",")
 	}
 	return out
+}
+
+func expSuffix(e string) string {
+	if e == "-" || e == "" {
+		return ""
+	}
+	return "/exp=" + e
 }
 
 func mapStr(m map[string]string) string {
@@ -716,7 +736,14 @@ func (r *runner) state() (fib, rib, strat map[string]string, csCap int, faces st
 	for _, e := range table.Rib.GetAllEntries() {
 		xs := []string{}
 		for _, rt := range e.GetRoutes() {
-			xs = append(xs, fmt.Sprintf("%d/%d/%d/%d", rt.FaceID, rt.Origin, rt.Cost, rt.Flags))
+			ex := "-"
+			if rt.ExpirationPeriod != nil {
+				ex = fmt.Sprint(uint64(*rt.ExpirationPeriod / time.Millisecond))
+				if *rt.ExpirationPeriod < 0 || *rt.ExpirationPeriod%time.Millisecond != 0 {
+					ex = fmt.Sprintf("(%d ns)", int64(*rt.ExpirationPeriod))
+				}
+			}
+			xs = append(xs, fmt.Sprintf("%d/%d/%d/%d", rt.FaceID, rt.Origin, rt.Cost, rt.Flags)+expSuffix(ex))
 		}
 		sort.Strings(xs)
 		rib[nstr(e.Name)] = strings.Join(xs, ",")
@@ -805,7 +832,7 @@ func shuffleFields(b []byte, seed int) []byte {
 
 func (r *runner) encodeParams(o *Op) []byte {
 	a := &mgmt.ControlArgs{FaceId: o.P.FaceId, Origin: o.P.Origin, Cost: o.P.Cost, Flags: o.P.Flags, Mask: o.P.Mask,
-		Capacity: o.P.Capacity, Mtu: o.P.Mtu, FacePersistency: o.P.Persistency}
+		Capacity: o.P.Capacity, Mtu: o.P.Mtu, FacePersistency: o.P.Persistency, ExpirationPeriod: o.P.Expiration}
 	if o.P.Name != "" && !o.P.NoName {
 		a.Name = mkName(o.P.Name)
 	}
@@ -1072,7 +1099,14 @@ func (r *runner) doCmd(o *Op) (int, int) {
 			want = "refuse"
 			break
 		}
-		rt := route{face: id, origin: 0, cost: 0, flags: 1}
+		rt := route{face: id, origin: 0, cost: 0, flags: 1, exp: "-"}
+		if o.P.Expiration != nil {
+			rt.exp = fmt.Sprint(*o.P.Expiration)
+			if *o.P.Expiration > math.MaxInt64/1000000 {
+				// more milliseconds than any clock arithmetic in nanoseconds can hold: refused, or stored exactly
+				want = "ok-or-refuse"
+			}
+		}
 		if o.P.Origin != nil {
 			rt.origin = *o.P.Origin
 		}
@@ -1247,6 +1281,21 @@ func (r *runner) doCmd(o *Op) (int, int) {
 			r.fail("C17/refused-command-changed-state", key, "refused command %s changed state:\n before %s\n after  %s", key, before, after)
 		}
 		return 0, 1
+	case "ok-or-refuse":
+		if !resp.got {
+			r.fail("C17/command-not-answered", key, "command %s %+v from face %d got no response", key, o.P, reqID)
+		} else if resp.status == 200 {
+			if effect != nil {
+				effect() // the invariant after the step compares the tables with exactly this effect
+			}
+			return 1, 0
+		} else if !is4xx {
+			r.fail("C17/bad-command-not-refused", key+"/out-of-range", "command %s %+v answered %d %s", key, o.P, resp.status, resp.text)
+		}
+		if after != before {
+			r.fail("C17/refused-command-changed-state", key, "refused command %s changed state:\n before %s\n after  %s", key, before, after)
+		}
+		return 0, 1
 	case "any-non-200":
 		if resp.got && resp.status == 200 {
 			r.fail("C17/bad-command-not-refused", key+"/unknown-verb", "unknown %s answered 200", key)
@@ -1306,7 +1355,11 @@ func (r *runner) resync() {
 	m.routes = map[string][]route{}
 	for _, e := range table.Rib.GetAllEntries() {
 		for _, rt := range e.GetRoutes() {
-			m.routes[nstr(e.Name)] = append(m.routes[nstr(e.Name)], route{rt.FaceID, rt.Origin, rt.Cost, rt.Flags})
+			ex := "-"
+			if rt.ExpirationPeriod != nil {
+				ex = fmt.Sprint(uint64(*rt.ExpirationPeriod / time.Millisecond))
+			}
+			m.routes[nstr(e.Name)] = append(m.routes[nstr(e.Name)], route{rt.FaceID, rt.Origin, rt.Cost, rt.Flags, ex})
 		}
 	}
 	exp := m.expectedFib()
@@ -1391,7 +1444,11 @@ func (r *runner) doDataset(o *Op) {
 		for _, e := range ds.Entries {
 			xs := []string{}
 			for _, rt := range e.Routes {
-				xs = append(xs, fmt.Sprintf("%d/%d/%d/%d", rt.FaceId, rt.Origin, rt.Cost, rt.Flags))
+				ex := "-"
+				if rt.ExpirationPeriod != nil {
+					ex = fmt.Sprint(*rt.ExpirationPeriod)
+				}
+				xs = append(xs, fmt.Sprintf("%d/%d/%d/%d", rt.FaceId, rt.Origin, rt.Cost, rt.Flags)+expSuffix(ex))
 			}
 			sort.Strings(xs)
 			got[nstr(e.Name)] = strings.Join(xs, ",")
